@@ -3,6 +3,7 @@ package main
 import (
 	"encoding/binary"
 	"strings"
+	"sync"
 	"time"
 
 	"github.com/hugelgupf/p9/p9"
@@ -106,7 +107,20 @@ func runKalias(r *rng, n int) {
 // kaliasReads: many reads in flight on one connection, each answered with the bytes the backend
 // produced for *that* request (the backend fills a read with byte(offset)).
 func kaliasReads(r *rng) {
-	s := newK7(r, 1)
+	// a third of the runs with megabyte frames: whatever is done to a buffer after its reply went out
+	// (scrubbing, handing it on) then takes long enough to meet the next request
+	big := r.chance(1, 3)
+	var s *k7Sess
+	if big {
+		be := newBackend(&rng{s: r.next()}, 0, 0, false)
+		be.dirRoot = true
+		srv := p9.NewServer(be)
+		s = &k7Sess{be: be, g: &gater{}, srv: srv, conns: []*rawPeer{newServerPeer(srv)}}
+		s.call(0, 100, map[string]interface{}{"MSize": uint64(1 << 20), "Version": "9P2000.L.Google.7"})
+		s.call(0, 104, map[string]interface{}{"fid": uint64(0), "Auth.Authenticationfid": uint64(0xffffffff)})
+	} else {
+		s = newK7(r, 1)
+	}
 	s.be.fillByOff = true
 	s.be.fullReads = true
 	nf := 2 + r.intn(3)
@@ -117,28 +131,83 @@ func kaliasReads(r *rng) {
 	// more reply bytes than the socket buffers hold, and nobody reads yet: reply writers block while
 	// later handlers run
 	rounds, bad, got, sent := 60+r.intn(40), 0, 0, 0
-	offOf := map[uint16]byte{}
-	for k := 0; k < rounds; k++ {
-		for f := 0; f < nf; f++ {
-			off := uint64(1 + (k*nf+f)%250)
-			tag := s.send(0, 116, map[string]interface{}{"fid": uint64(10 + f), "Offset": off, "Count": uint64(6000 + r.intn(2181))})
-			offOf[tag] = byte(off)
-			sent++
-		}
+	if big {
+		rounds = 8 + r.intn(8)
 	}
-	time.Sleep(20 * time.Millisecond)
-	for k := 0; k < sent; k++ {
-		f, err := s.conns[0].readFrame(10 * time.Second)
-		if err != nil || len(f) < 11 || f[4] != 117 {
-			break
+	offOf := map[uint16]byte{}
+	cnt := func() uint64 {
+		if big {
+			return uint64(900000 + r.intn(148000))
 		}
-		got++
+		return uint64(6000 + r.intn(2181))
+	}
+	var mu sync.Mutex
+	check := func(f []byte) {
+		mu.Lock()
 		want := offOf[binary.LittleEndian.Uint16(f[5:])]
+		mu.Unlock()
 		for _, x := range f[11:] {
 			if x != want {
 				bad++
 				break
 			}
+		}
+	}
+	if big {
+		// a steady flow: eight reads in flight, every reply read at once and the next request sent –
+		// what several readers (or one multi-chunk ReadAt after the other) look like to the server
+		total := rounds * nf
+		inflight := make(chan struct{}, 8)
+		done := make(chan struct{})
+		go func() {
+			defer close(done)
+			for k := 0; k < total; k++ {
+				f, err := s.conns[0].readFrame(10 * time.Second)
+				if err != nil || len(f) < 11 || f[4] != 117 {
+					return
+				}
+				got++
+				check(f)
+				<-inflight
+			}
+		}()
+	send:
+		for k := 0; k < total; k++ {
+			select {
+			case inflight <- struct{}{}:
+			case <-done:
+				break send
+			}
+			off := uint64(1 + k%250)
+			mu.Lock()
+			s.tag++
+			tag := s.tag
+			offOf[tag] = byte(off)
+			mu.Unlock()
+			s.conns[0].write(s.frame(116, tag, map[string]interface{}{"fid": uint64(10 + k%nf), "Offset": off, "Count": cnt()}))
+			sent++
+		}
+		select {
+		case <-done:
+		case <-time.After(15 * time.Second):
+		}
+	} else {
+		for k := 0; k < rounds; k++ {
+			for f := 0; f < nf; f++ {
+				off := uint64(1 + (k*nf+f)%250)
+				tag := s.send(0, 116, map[string]interface{}{"fid": uint64(10 + f), "Offset": off, "Count": cnt()})
+				offOf[tag] = byte(off)
+				sent++
+			}
+		}
+		time.Sleep(20 * time.Millisecond)
+		for k := 0; k < sent; k++ {
+			f, err := s.conns[0].readFrame(10 * time.Second)
+			if err != nil || len(f) < 11 || f[4] != 117 {
+				break
+			}
+			got++
+			check(f)
 		}
 	}
 	s.close()
